@@ -59,6 +59,7 @@ IDS = {
     'unicode': lambda n: [f'gén-{i}-ö✓' for i in range(n)],
     'with-empty': lambda n: [''] + [f'x{i}' for i in range(1, n)],
     'numpy-U': lambda n: np.array([f'u{i}é' for i in range(n)]),
+    'white-space': lambda n: [['x', 'x ', ' x', 'x\t', 'x\n', 'X'][i % 6] + ('' if i < 6 else str(i)) for i in range(n)],     # exact strings, nothing trimmed or folded
     'numpy-int32': lambda n: np.arange(100, 100 + n, dtype='i4'),
     'tuple': lambda n: tuple(f't{i}' for i in range(n)),
     'numpy-uint64-top': lambda n: np.array(([12345, 2 ** 63, 2 ** 64 - 1, 2 ** 63 - 1, 2 ** 64 - 2, 0] * n)[:n], dtype='u8'),     # e.g. hash-derived ids
